@@ -255,11 +255,16 @@ def run(tier, replay):
                 a, b = kv.split("=")
                 sites[int(a)] = b
         variants.append((sid, eolkind, mode, sites))
-    if tier == "quick" and len(variants) > 14000:
-        keep = [v for v in variants if v[2] != "subset"]
-        rest = [v for v in variants if v[2] == "subset"]
+    cap = 14000 if tier == "quick" else 400000
+    if len(variants) > cap:
+        # every all-at-once variant and every single-site variant stays; the pairs of sites are sampled
+        keep = [v for v in variants if v[2] != "subset" or len(v[3]) <= 1]
+        rest = [v for v in variants if v[2] == "subset" and len(v[3]) > 1]
+        if tier == "quick":
+            keep, rest = [v for v in variants if v[2] != "subset"], [v for v in variants if v[2] == "subset"]
         rng.shuffle(rest)
-        variants = keep + rest[:13000]
+        variants = keep + rest[:max(0, cap - len(keep)) if tier != "quick" else 13000]
+    nvariants_enumerated = len(res.printed)
     import tour, shutil
     fsroot = os.path.join(d, "fs")
     shutil.rmtree(fsroot, ignore_errors=True)
@@ -267,19 +272,26 @@ def run(tier, replay):
     def req(t, n):
         return {"op": "run", "text": t, "tree": True, "budget": 50000, "stdin": tour.TOUR_STDIN, "dir": os.path.join(fsroot, n)}
     base_resp = dict(zip([s["id"] for s in sd], pool.map([req(s["text"], "b%d" % i) for i, s in enumerate(sd)], timeout=40)))
-    vtexts = [materialise(byid[v[0]]["toks"], v[3], v[1], rng) for v in variants]
-    vresps = pool.map([req(t, "v%d" % i) for i, t in enumerate(vtexts)], timeout=40)
-    shutil.rmtree(fsroot, ignore_errors=True)
     nontrivial = set()
     stats = {}
-    for v, t, resp in zip(variants, vtexts, vresps):
+    samples = []
+    base_sum = {sid: summary(r) for sid, r in base_resp.items()}
+    CH = 20000          # variants are run and judged chunk by chunk: responses (parse trees) are not kept
+    for c0 in range(0, len(variants), CH):
+      chunk_v = variants[c0:c0 + CH]
+      chunk_t = [materialise(byid[v[0]]["toks"], v[3], v[1], rng) for v in chunk_v]
+      chunk_r = pool.map([req(t, "v%d" % (c0 + i)) for i, t in enumerate(chunk_t)], timeout=40)
+      shutil.rmtree(fsroot, ignore_errors=True)
+      if c0 == 0:
+          samples = [{"moves": v[3], "eol": v[1], "text_b": t[:300]} for v, t in list(zip(chunk_v, chunk_t))[:: max(1, len(chunk_v) // 3)][:3]]
+      for v, t, resp in zip(chunk_v, chunk_t, chunk_r):
         sid, eolkind, mode, sites = v
-        a, b = summary(base_resp[sid]), summary(resp)
+        a, b = base_sum[sid], summary(resp)
         key = mode + ":" + ",".join(sorted(set(sites.values()))) if mode == "subset" else mode
         stats[key] = stats.get(key, 0) + 1
         if a == b:
             if t != byid[sid]["text"]:
-                nontrivial.add(t)
+                nontrivial.add(hash(t))
             continue
         which = [k for k in ("verdict", "tree", "out", "k", "code") if a.get(k) != b.get(k)]
         feats = {"mode:" + mode, "eol:" + eolkind} | {"move:" + m for m in sites.values()} | {"differs:" + w for w in which}
@@ -289,7 +301,7 @@ def run(tier, replay):
                        "expected": "same parse tree up to positions, same verdict, same output"}, feats, name=which[0] if which else "diff")
     coverage = {
         "states": res.distinct, "transitions": res.generated, "traces_validated_against_impl": len(variants),
-        "samples": [{"moves": v[3], "eol": v[1], "text_b": t[:300]} for v, t in list(zip(variants, vtexts))[:: max(1, len(variants) // 3)][:3]],
+        "samples": samples, "variants_enumerated_by_tlc": nvariants_enumerated,
         "evaluations": len(variants), "distinct_nontrivial": len(nontrivial),
         "rule": "seeds: programs of the C01/C03/C04/C05 families, program texts from the repository's tests, and rejected programs; TLC "
                 "enumerates, per seed and per line-ending convention (CR LF, LF, CR), every subset of up to %d sites with every move "
